@@ -233,6 +233,7 @@ class Interp:
         self.stack = []
         self.unit_checks = []
         self.lost = []           # statements that are calls made for their effect and that the interpretation could not model
+        self.axis_count = {}     # axis label -> symbolic number of positions, for axes created with an explicit count (logspace)
         self.axis_len = {}       # axis label -> length, where the configuration being analysed fixes it (set by hooks)
         self.flow_taint = []     # opaque conditions that hold for the rest of the run once a data-dependent exit was not modelled
         self.assume = []         # (condition, truth): data-dependent conditions decided by the caller (one run per case; the caller merges the results)
@@ -2095,8 +2096,13 @@ class Interp:
                 dt = _dtype_kind(kw.get('dtype', args[1] if len(args) > 1 else None), 'f')
                 if isinstance(sh, Shape):
                     return Arr(sh.dims, num(c), unit=num(1), fresh=True, dt=dt)
+                def lab_of(s_):
+                    # the axis with that many positions: a length read off an array, or the count an axis was created with
+                    if not isinstance(s_, Arr) or s_.ndim != 0:
+                        return None
+                    return _len_label(s_.poly) or next((l_ for l_, c_ in self.axis_count.items() if c_ == s_.poly), None)
                 if isinstance(sh, Arr) and sh.ndim == 0:
-                    lab = _len_label(sh.poly)
+                    lab = lab_of(sh)
                     if lab:
                         return Arr((lab,), num(c), unit=num(1), fresh=True, dt=dt)
                 if isinstance(sh, tuple):
@@ -2105,7 +2111,7 @@ class Interp:
                         if isinstance(s, int) and not isinstance(s, bool) and s == 1:
                             dims.append(None)
                             continue
-                        lab = _len_label(s.poly) if isinstance(s, Arr) else None
+                        lab = lab_of(s)
                         if lab is None:
                             return Unk('array shape %r' % (sh,), e)
                         dims.append(lab)
@@ -2169,7 +2175,11 @@ class Interp:
                 return self.binop(ast.Mult(), args[0], -1, e)
             if last == 'arange':
                 n = args[0]
+                if len(args) == 1 and isinstance(n, int) and not isinstance(n, bool) and 0 <= n <= 64:
+                    return self._list_to_arr(list(range(n)))
                 lab = _len_label(n.poly) if isinstance(n, Arr) else None
+                if lab is None and isinstance(n, Arr) and n.ndim == 0:
+                    lab = next((l_ for l_, c_ in self.axis_count.items() if c_ == n.poly), None)         # as many positions as an axis created earlier with that count
                 if lab and len(args) == 1:
                     return Arr((lab,), alg.mk_fn('arange', L(lab)), unit=num(1))
                 return Unk('arange(%r)' % (n,), e)
@@ -2325,11 +2335,22 @@ class Interp:
                 if any(isinstance(v, Unk) for v in a):
                     return Unk('searchsorted', e)
                 return Arr(a[1].dims, alg.mk_fn('searchsorted', B(a[0].dims[0] if a[0].ndim else None, a[0].poly), P(a[1].poly)), unit=num(1))
+            if last == 'linspace' and len(args) >= 3 and not kw:
+                # n evenly spaced points from a to b: element i is a + i*(b - a)/(n - 1) (a single point is a); the axis is the one created with that count, if any
+                a = [self._as_arr(v) for v in args[:3]]
+                if all(isinstance(v, Arr) and v.ndim == 0 for v in a):
+                    if a[2].poly.is_const() and a[2].poly.const_value() == 1:
+                        return Arr((None,), a[0].poly, unit=a[0].unit)
+                    lab = _len_label(a[2].poly) or next((l_ for l_, c_ in self.axis_count.items() if c_ == a[2].poly), None)
+                    if lab is not None:
+                        return Arr((lab,), a[0].poly + alg.mk_fn('arange', L(lab)) * (a[1].poly - a[0].poly) * (a[2].poly - 1).pow(-1), unit=a[0].unit)
+                return Unk('np.linspace', e)
             if last == 'logspace':
                 a = [self._as_arr(v) for v in args[:3]]
                 if any(isinstance(v, Unk) for v in a) or len(a) < 3:
                     return Unk('logspace', e)
                 extra = [C('%s=%s' % (k, v)) for k, v in sorted(kw.items())]
+                self.axis_count['d'] = a[2].poly          # the axis has as many positions as logspace was asked for
                 return Arr(('d',), alg.mk_fn('logspace', L('d'), P(a[0].poly), P(a[1].poly), P(a[2].poly), *extra), unit=num(1), fresh=True)
             if last == 'hstack' or last == 'concatenate':
                 parts = args[0] if args and isinstance(args[0], (list, tuple)) else []
@@ -2394,6 +2415,8 @@ class Interp:
                     return Unk('len of a selection by a mask over several axes', e)
                 if isinstance(x, Arr) and x.ndim >= 1 and x.dims[0] in self.axis_len:
                     return self.axis_len[x.dims[0]]            # the configuration being analysed fixes the length of this axis
+                if isinstance(x, Arr) and x.ndim >= 1 and x.dims[0] in self.axis_count:
+                    return Arr((), self.axis_count[x.dims[0]], unit=num(1))          # the axis was created with this many positions
                 if isinstance(x, Arr) and x.ndim >= 1:
                     return Arr((), alg.count(x.dims[0]), unit=num(1)) if x.dims[0] else 1
                 if isinstance(x, GenList):
